@@ -79,6 +79,11 @@ pub union {TY}U {{ pub {f1}: UB, pub {f2}: [UB; 4] }}''',
 pub enum {TY}R {{ {V1}(UB), {V2} {{ #[educe(Deref, DerefMut, Into(UB))] {f1}: UB, {f2}: UZ }} }}''',
                 f'''{{ let mut x = {TY}R::{V1}(4); *::core::ops::DerefMut::deref_mut(&mut x) += 1; ::std::println!("R deref | {{}}", *::core::ops::Deref::deref(&x));
   let y: UB = ::core::convert::Into::into({TY}R::{V2} {{ {f1}: 7, {f2}: 1 }}); ::std::println!("R into | {{}}", y); }}'''))
+    # Copy next to Clone on an enum with a custom clone method: the one place where a separate Copy impl with its own predicates is written
+    out.append(("P", f'''#[derive(Educe)] #[educe(Clone, Copy)]
+pub enum {TY}P<{TP}: Bnd + ::core::marker::Copy> {{ {V1}({TP}, #[educe(Clone(method(m_clone)))] UB), {V2} {{ {f1}: UB }}, {V3} }}''',
+                f'''{{ let a = {TY}P::<UB>::{V1}(1, 2); let b = a; let c = ::core::clone::Clone::clone(&a);
+  ::std::println!("P clone | {{}}", match (b, c) {{ ({TY}P::{V1}(x, y), {TY}P::{V1}(z, w)) => x + y + z + w, _ => 0 }}); }}'''))
     return out
 
 
@@ -115,17 +120,26 @@ def assignments(rng, names, count):
         if i < len(pairs):
             tp, cp = pairs[i]
         n = {"TY": ty, "TP": tp, "CP": cp, "LT": lt, "f1": f1, "f2": f2, "f3": f3, "V1": vs[0], "V2": vs[1], "V3": vs[2]}
-        vals = [n[k] for k in ("TP", "CP")] + [ty + s for s in "SETDUR"]
+        vals = [n[k] for k in ("TP", "CP")] + [ty + s for s in "SETDURP"]
         if len(set(vals)) != len(vals) or len({f1, f2, f3}) != 3:
             continue
         out.append(n)
     return out
 
 
+STD_MACROS = ["matches", "assert", "assert_eq", "assert_ne", "debug_assert", "debug_assert_eq", "debug_assert_ne", "panic", "todo", "unimplemented",
+              "unreachable", "stringify", "concat", "format_args", "format", "write", "writeln", "vec", "print", "println", "eprintln", "line", "column",
+              "file", "module_path", "env", "option_env", "include_str", "cfg", "dbg"]
+
+
 def shadow_items(names, own):
     """items of the hostile module: every identifier of the templates means something else there"""
     lines = ["#[allow(non_camel_case_types, dead_code)] pub enum Shadow__ { Some, None, Ok, Err, Equal, Less, Greater }",
              "#[allow(unused_imports)] use Shadow__::*;"]
+    # the macros of the standard prelude mean something else as well: generated code has to invoke them by absolute path
+    for x in STD_MACROS:
+        if x not in names:
+            lines.append("#[allow(unused_macros)] macro_rules! %s { ($($t:tt)*) => { compile_error!(\"shadowed macro `%s` used\") } }" % (x, x))
     for x in sorted(set(names) | {"Option", "Result", "Ordering", "Clone", "Copy", "Default", "Debug", "PartialEq", "Eq", "PartialOrd", "Ord", "Hash",
                                    "Hasher", "Into", "From", "Deref", "DerefMut", "Formatter", "Box", "Vec", "String", "Sized", "Iterator",
                                    "bool", "u8", "str", "usize", "isize", "u64", "char", "core", "std", "fmt", "cmp", "hash", "mem", "slice", "option", "primitive"}):
@@ -180,7 +194,7 @@ def decoys(n):
     wrote `self.cmp(other)` instead of `::core::cmp::Ord::cmp(self, other)` would reach these"""
     TY, TP, CP, LT = n["TY"], n["TP"], n["CP"], n["LT"]
     heads = ["impl<'%s, %s: Bnd, const %s: UZ> %sS<'%s, %s, %s>" % (LT, TP, CP, TY, LT, TP, CP), "impl<%s: Bnd> %sE<%s>" % (TP, TY, TP),
-             "impl<%s: Bnd> %sT<%s>" % (TP, TY, TP), "impl %sD" % TY, "impl %sU" % TY, "impl %sR" % TY]
+             "impl<%s: Bnd> %sT<%s>" % (TP, TY, TP), "impl %sD" % TY, "impl %sU" % TY, "impl %sR" % TY, "impl<%s: Bnd + ::core::marker::Copy> %sP<%s>" % (TP, TY, TP)]
     return "\n".join("#[cfg(runnable)] #[allow(dead_code)] %s {%s}" % (h, DECOY_METHODS) for h in heads)
 
 
@@ -205,7 +219,7 @@ def macroize(src, idents, tag):
 
 def module_body(n, k, hostile, names, runnable=True):
     ds = defs(n, k)
-    own = set(n.values()) | {n["TY"] + s for s in "SETDUR"}
+    own = set(n.values()) | {n["TY"] + s for s in "SETDURP"}
     parts = []
     if hostile:
         parts.append(shadow_items(names, own | {"UB", "UZ", "Bnd", "Rec", "ARR", "show", "m_eq", "m_cmp", "m_pcmp", "m_hash", "m_clone", "m_dbg", "run", "Educe"}))
@@ -233,7 +247,7 @@ def rename(line, n):
         if k in ("TP", "CP", "LT"):
             continue
         back[v] = NEUTRAL[k]
-    for s in "SETDUR":
+    for s in "SETDURP":
         back[n["TY"] + s] = NEUTRAL["TY"] + s
     return head + re.sub(r"(?:r#)?[A-Za-z_][A-Za-z0-9_]*", lambda m: back.get(m.group(0), back.get("r#" + m.group(0), m.group(0))), line)
 
@@ -519,8 +533,8 @@ def main(tier):
     tie["broken"] = tie["broken"][:4]
     tie["extra"]["assignments"] = len(assigns)
     tie["extra"]["identifier_inventory"] = len(names)
-    tie["rule"] = ("%d name assignments for six definition families (generic struct with lifetime/type/const parameters, enum with named/tuple/unit "
-                   "variants + Default, tuple struct with Deref/DerefMut/Into, Default(new) struct, union, enum with Deref/DerefMut/Into whose first variant is now and then called `Target`), all traits, with and without method/rank "
+    tie["rule"] = ("%d name assignments for seven definition families (generic struct with lifetime/type/const parameters, enum with named/tuple/unit "
+                   "variants + Default, tuple struct with Deref/DerefMut/Into, Default(new) struct, union, enum with Deref/DerefMut/Into whose first variant is now and then called `Target`, Copy + Clone enum with a custom clone method); the macros of the standard prelude (matches!, assert!, write!, ...) are shadowed as well, all traits, with and without method/rank "
                    "attributes: field, variant, type, type-/const-parameter and lifetime names drawn from the identifier inventory of the regenerated "
                    "templates, the primitive type names and the binder-collision families (x/_x/__x/_s_x/_o_x/_d_x/v_x/_0/__0); each compiled inside a "
                    "module where every identifier of the templates, the prelude names (Option, Some, None, Result, Ok, Err, Ordering, Clone, Default, "
